@@ -313,3 +313,83 @@ theorem C15_closers (n : Nat) (sched : List (Nat × Nat)) :
   exact ⟨h.fr.1, h.cc.1, fun t u p q ht hu hp hq => past_unique h ht hu (Or.inl hp) (Or.inl hq)⟩
 
 end FV.WsCl
+
+/-! ### the Closed bit is set no later than the underlying close
+
+What the reader relies on: when its `ReadMessage` fails because *this side* closed the underlying
+connection, `hasConnState(Closed)` already holds, so the failure is recognised as a healthy close
+and `Listen` returns nil. -/
+namespace FV.WsCl
+
+structure Inv2 (s : St) : Prop where
+  at7 : ∀ (t : Nat), s.threads[t]? = some .c7 → s.closed = true
+  done : ∀ (t : Nat), s.threads[t]? = some .retDone → s.closed = true
+  cc : 1 ≤ s.connCloses → s.closed = true
+
+theorem inv2_init (n : Nat) : Inv2 (init n) := by
+  refine ⟨?_, ?_, ?_⟩
+  · intro t h; simp [init, List.getElem?_replicate] at h
+  · intro t h; simp [init, List.getElem?_replicate] at h
+  · intro h; simp [init] at h
+
+/-- moving one thread to a program counter other than `c7` / `retDone`, leaving `closed` and
+`connCloses` alone -/
+theorem inv2_move {s : St} {t : Nat} {p1 : CPc} (h : Inv2 s) (h7 : p1 ≠ .c7) (hd : p1 ≠ .retDone) :
+    Inv2 (s.setPc t p1) := by
+  refine ⟨?_, ?_, h.cc⟩
+  · intro u hu
+    rcases get_set hu with ⟨_, e, _⟩ | ⟨_, hu'⟩
+    · exact absurd e.symm h7
+    · exact h.at7 u hu'
+  · intro u hu
+    rcases get_set hu with ⟨_, e, _⟩ | ⟨_, hu'⟩
+    · exact absurd e.symm hd
+    · exact h.done u hu'
+
+theorem inv2_step (s : St) (t ch : Nat) (h : Inv2 s) : Inv2 (step s t ch) := by
+  unfold step
+  split
+  · exact ⟨h.at7, h.done, h.cc⟩
+  · split
+    · have := inv2_move (t := t) (p1 := .c1) h (by decide) (by decide)
+      exact ⟨this.at7, this.done, this.cc⟩
+    · exact h
+  · split
+    · have := inv2_move (t := t) (p1 := .c2) h (by decide) (by decide)
+      exact ⟨this.at7, this.done, this.cc⟩
+    · have := inv2_move (t := t) (p1 := .retMultiple) h (by decide) (by decide)
+      exact ⟨this.at7, this.done, this.cc⟩
+  · split
+    · exact inv2_move h (by decide) (by decide)
+    · exact inv2_move h (by decide) (by decide)
+  · have := inv2_move (t := t) (p1 := .c4) h (by decide) (by decide)
+    exact ⟨this.at7, this.done, this.cc⟩
+  · have := inv2_move (t := t) (p1 := .c5 (ch % 2 == 0)) h (by simp) (by simp)
+    exact ⟨this.at7, this.done, this.cc⟩
+  · split
+    · split
+      · exact inv2_move h (by decide) (by decide)
+      · split
+        · exact inv2_move h (by decide) (by decide)
+        · exact h
+    · exact inv2_move h (by decide) (by decide)
+  · -- c6: the Closed bit is set, then the thread stands before the underlying close
+    exact ⟨fun _ _ => rfl, fun _ _ => rfl, fun _ => rfl⟩
+  · -- c7: the underlying close; the thread was at c7, so Closed holds already
+    next h0 =>
+    have hc := h.at7 t h0
+    refine ⟨?_, ?_, fun _ => hc⟩
+    · intro u hu
+      rcases get_set hu with ⟨_, e, _⟩ | ⟨_, hu'⟩
+      · cases e
+      · exact h.at7 u hu'
+    · intro u _; exact hc
+  · exact h
+  · exact h
+
+theorem inv2_run (s : St) (sched : List (Nat × Nat)) (h : Inv2 s) : Inv2 (run s sched) := by
+  induction sched generalizing s with
+  | nil => exact h
+  | cons x xs ih => exact ih _ (inv2_step s x.1 x.2 h)
+
+end FV.WsCl
